@@ -179,6 +179,27 @@ func readLookupList(p *parser.Parser, pos int64, sr subtableReader) (LookupList,
 
 	res := make(LookupList, len(lookupOffsets))
 
+	// Several offsets may point at the same subtable.  Every subtable is
+	// decoded once only, so that aliased offsets cannot make a small lookup
+	// list arbitrarily expensive to read.
+	type subtableKey struct {
+		pos        int64
+		lookupType uint16
+	}
+	seen := make(map[subtableKey]Subtable)
+	readSubtable := func(pos int64, meta *LookupMetaInfo) (Subtable, error) {
+		key := subtableKey{pos, meta.LookupType}
+		if subtable, ok := seen[key]; ok {
+			return subtable, nil
+		}
+		subtable, err := sr(p, pos, meta)
+		if err != nil {
+			return nil, err
+		}
+		seen[key] = subtable
+		return subtable, nil
+	}
+
 	numLookups := 0
 	numSubTables := 0
 
@@ -231,7 +252,7 @@ func readLookupList(p *parser.Parser, pos int64, sr subtableReader) (LookupList,
 
 		subtables := make([]Subtable, subTableCount)
 		for j, subtableOffset := range subtableOffsets {
-			subtable, err := sr(p, lookupTablePos+int64(subtableOffset), meta)
+			subtable, err := readSubtable(lookupTablePos+int64(subtableOffset), meta)
 			if err != nil {
 				return nil, err
 			}
@@ -255,7 +276,7 @@ func readLookupList(p *parser.Parser, pos int64, sr subtableReader) (LookupList,
 					}
 				}
 				pos := lookupTablePos + int64(subtableOffsets[j]) + l.ExtensionOffset
-				subtable, err := sr(p, pos, meta)
+				subtable, err := readSubtable(pos, meta)
 				if err != nil {
 					return nil, err
 				}
